@@ -49,7 +49,7 @@ import (
 const (
 	c40QueryBound = 10 * time.Minute // liveness bounds; expiry is inconclusive
 	c40IdleBound  = 10 * time.Minute
-	c40Grace      = 2 * time.Second // how long a query may wait on a suspended indexer before the suspension is lifted
+	c40Grace      = 150 * time.Millisecond // how long a query may wait for a withheld indexer step (see valve)
 )
 
 // ---------------------------------------------------------------------------
@@ -267,6 +267,7 @@ type c40World struct {
 	history  uint64
 	disabled bool
 	frozen   bool
+	release  func() // non-nil while the harness withholds an indexer step (see valve)
 	everIdx  bool // indexing was enabled and waited for at least once
 }
 
@@ -466,13 +467,14 @@ func (w *c40World) indexed() (common.Range[uint64], bool) {
 	return sr.IndexedBlocks, sr.IndexedView != nil
 }
 
-// valve runs fn; while the indexer is suspended by the block processing flag fn runs
-// on a helper goroutine and, if it has not returned after a grace period (a matcher
-// sync request is only answered once the indexer leaves a partially written state,
-// which it cannot do while suspended), the suspension is lifted. fn must not call
-// t.Fatalf.
+// valve runs fn. While the harness withholds something the indexer needs to catch up
+// with the chain (the block processing flag is set, or the new head was not announced
+// yet) a range query may legitimately keep iterating until that is lifted — in geth
+// both conditions last for the duration of a block import — so fn then runs on a
+// helper goroutine and, if it has not returned after a grace period, the withheld
+// step is performed (w.release). fn must not call t.Fatalf.
 func (w *c40World) valve(fn func()) {
-	if !w.frozen {
+	if w.release == nil {
 		fn()
 		return
 	}
@@ -483,8 +485,8 @@ func (w *c40World) valve(fn func()) {
 		return
 	case <-time.After(c40Grace):
 	}
-	w.be.fm.SetBlockProcessing(false)
-	w.frozen = false
+	w.release()
+	w.release = nil
 	<-done // fn is bounded by its own context timeout
 }
 
@@ -825,7 +827,7 @@ func (w *c40World) queries(st *vs.S, n int, moment string) {
 	}
 	for i := 0; i < n; i++ {
 		var idx *common.Range[uint64]
-		wasFrozen := w.frozen
+		withheld := w.release != nil
 		lookBefore := rapid.IntRange(0, 2).Draw(w.rt, "lookBefore") == 0
 		if lookBefore {
 			if r, ok := w.indexed(); ok {
@@ -835,8 +837,8 @@ func (w *c40World) queries(st *vs.S, n int, moment string) {
 		q := w.drawQuery([][]*c40Blk{w.canon}, idx)
 		ans := w.askValve(q)
 		m := moment
-		if wasFrozen && !w.frozen {
-			m = "suspended-then-released"
+		if withheld && w.release == nil {
+			m += "-then-released"
 		}
 		want := w.judge(q, ans, [][]*c40Blk{w.canon}, m)
 		if !lookBefore {
@@ -965,8 +967,12 @@ func c40Scenario(t *testing.T, rt *rapid.T, st *vs.S) {
 		case mode == 6: // head moved, indexer not told yet
 			next, op := w.prepare(maxGrow)
 			w.commit(next, op)
+			w.release = w.setTarget
 			w.queries(st, nq, "target-not-set")
-			w.setTarget()
+			if w.release != nil {
+				w.release()
+				w.release = nil
+			}
 		case mode == 7: // indexing suspended by the block processing flag (set while idle)
 			if w.disabled {
 				w.queries(st, nq, "disabled")
@@ -988,10 +994,14 @@ func c40Scenario(t *testing.T, rt *rapid.T, st *vs.S) {
 				w.be.fm.SetBlockProcessing(true)
 				w.frozen = true
 			}
-			w.queries(st, nq, "suspended")
-			if w.frozen {
+			w.release = func() {
 				w.be.fm.SetBlockProcessing(false)
 				w.frozen = false
+			}
+			w.queries(st, nq, "suspended")
+			if w.release != nil {
+				w.release()
+				w.release = nil
 			}
 		case mode <= 9: // head switch while the query runs
 			w.concurrent(st, maxGrow)
@@ -1055,7 +1065,7 @@ func (w *c40World) concurrent(st *vs.S, maxGrow int) {
 	}
 	q := w.drawQuery(cands, nil)
 	yields := rapid.IntRange(0, 3).Draw(rt, "yields")
-	tell := rapid.Bool().Draw(rt, "tellIndexer")
+	tellLate := rapid.Bool().Draw(rt, "tellLate")
 
 	done := make(chan c40Answer, 1)
 	go func() { done <- w.ask(q) }()
@@ -1064,9 +1074,10 @@ func (w *c40World) concurrent(st *vs.S, maxGrow int) {
 	}
 	for _, p := range ops {
 		w.commit(p.chain, p.op)
-		if tell {
-			w.setTarget()
+		if tellLate {
+			runtime.Gosched()
 		}
+		w.setTarget() // never withheld: the query may iterate until the index follows the new head
 		runtime.Gosched()
 	}
 	var ans c40Answer
@@ -1076,9 +1087,6 @@ func (w *c40World) concurrent(st *vs.S, maxGrow int) {
 		w.t.Fatalf("VERIF-INCONCLUSIVE C40: concurrent query %s did not return", q)
 	}
 	want := w.judge(q, ans, cands, "head-moving")
-	if !tell {
-		w.setTarget()
-	}
 	var idx *common.Range[uint64]
 	if r, ok := w.indexed(); ok {
 		idx = &r
